@@ -383,6 +383,44 @@ let () =
         end
       done);
 
+  register "c03.lineform"
+    ~doc:"src/read/line.rs parse_attribute through a DWARF 5 line-program header (one directory entry of format (DW_LNCT_path, form)): every form code 0..0x30 and the GNU forms x format x byte order x (byte pool + spec-encoded boundary data), keeping the cases where the model says the entry is consumed exactly or rejected"
+    (fun ~seed ~n emit ->
+      let tail = ints [1; 1; 0x08; 0] in
+      let case f64 asz bigend c (payload : Byte0.byte list) =
+        let e = mk_enc 5 f64 asz bigend in
+        let input = payload @ tail in
+        let verdict dbg = match Attr.line_parse_attribute dbg e (n_of_int c) input with
+          | Res.Ok (v, r) -> if r = tail then Some ("ok " ^ show v) else None
+          | Res.Err x -> Some ("err " ^ Errnames.name x)
+          | Res.Panic -> Some "panic" | Res.OutOfFuel -> Some "outoffuel" in
+        match verdict true, verdict false with
+        | Some d, Some r ->
+            emit (Printf.sprintf "c03.lineform %d %d %d %d %s" (b01 f64) asz (b01 bigend) c (hexb payload)) d r
+        | _ -> () in
+      let codes = List.init 0x31 (fun i -> i) @ [0x1f01; 0x1f02; 0x1f20; 0x1f21; 0x1f00; 0xffff] in
+      List.iter (fun c ->
+        List.iter (fun f64 -> List.iter (fun bigend ->
+          let asz = if c land 1 = 0 then 8 else 4 in
+          let line_known = List.mem c [0x0a; 0x03; 0x04; 0x09; 0x0b; 0x05; 0x06; 0x07; 0x1e; 0x0f; 0x0d; 0x0c; 0x17; 0x08;
+                                       0x0e; 0x1d; 0x1f21; 0x1f; 0x1a; 0x1f02; 0x25; 0x26; 0x27; 0x28] in
+          List.iteri (fun i l -> if line_known || i = 1 || i = 20 then case f64 asz bigend c (ints l)) generic_pool;
+          (match List.find_opt (fun f -> line_known && int_of_n (form_code f) = c) all_forms with
+           | Some f ->
+               List.iter (fun bs ->
+                 case f64 asz bigend c bs;
+                 (match List.rev bs with [] -> () | _ :: t -> case f64 asz bigend c (List.rev t)))
+                 (encode_all f (mk_enc 5 f64 asz bigend))
+           | None -> ())) [false; true]) [false; true]) codes;
+      let r = mk_rng seed in
+      for _ = 1 to n do
+        let c = pick r [| 0x0a; 0x03; 0x04; 0x09; 0x0b; 0x05; 0x06; 0x07; 0x1e; 0x0f; 0x0d; 0x0c; 0x17; 0x08; 0x0e; 0x1d; 0x1f21;
+                          0x1f; 0x1a; 0x1f02; 0x25; 0x26; 0x27; 0x28; 0x01; 0x18; 0x16; 0x21; 0x19; 0x1b |] in
+        let len = rand_int r 20 in
+        let payload = List.init len (fun _ -> match rand_int r 5 with 0 -> 0 | 1 -> 0xff | 2 -> 0x80 | 3 -> rand_int r 0x14 | _ -> rand_int r 256) in
+        case (rand_bool r) (pick r [| 1; 2; 4; 8 |]) (rand_bool r) c (ints payload)
+      done);
+
   register "c03.helpers"
     ~doc:"AttributeValue::{udata,sdata,offset,exprloc,u8,u16}_value on a directly constructed value of each of the 47 variants x boundary numbers of the variant's width"
     (fun ~seed ~n emit ->
